@@ -99,6 +99,7 @@ var methodName = map[string]string{
 	"txByHash": "starknet_getTransactionByHash", "txByIdx": "starknet_getTransactionByBlockIdAndIndex",
 	"receipt": "starknet_getTransactionReceipt", "txStatus": "starknet_getTransactionStatus",
 	"stateUpdate": "starknet_getStateUpdate", "storageAt": "starknet_getStorageAt", "nonce": "starknet_getNonce",
+	"storageAtLU": "starknet_getStorageAt", // with response_flags ["INCLUDE_LAST_UPDATE_BLOCK"] (v0.10)
 	"classHashAt": "starknet_getClassHashAt", "classAt": "starknet_getClassAt", "class": "starknet_getClass",
 }
 
@@ -119,6 +120,9 @@ func (r Req) params() []kv {
 		return []kv{{"block_id", r.ID.json()}, {"index", r.Idx}}
 	case "storageAt":
 		return []kv{{"contract_address", "0x" + r.Addr}, {"key", "0x" + r.Key}, {"block_id", r.ID.json()}}
+	case "storageAtLU":
+		return []kv{{"contract_address", "0x" + r.Addr}, {"key", "0x" + r.Key}, {"block_id", r.ID.json()},
+			{"response_flags", []string{"INCLUDE_LAST_UPDATE_BLOCK"}}}
 	case "nonce", "classHashAt", "classAt":
 		return []kv{{"block_id", r.ID.json()}, {"contract_address", "0x" + r.Addr}}
 	case "class":
@@ -163,7 +167,7 @@ func (r Req) line() string {
 		return r.M + " " + r.Hash
 	case "txByIdx":
 		return fmt.Sprintf("%s %s %d", r.M, r.ID.line(), r.Idx)
-	case "storageAt":
+	case "storageAt", "storageAtLU":
 		return fmt.Sprintf("%s %s %s %s", r.M, r.ID.line(), r.Addr, r.Key)
 	case "nonce", "classHashAt", "classAt":
 		return fmt.Sprintf("%s %s %s", r.M, r.ID.line(), r.Addr)
@@ -179,7 +183,7 @@ func (s *servers) call(v string, r Req) (string, string) {
 	if err != nil {
 		return "transport:" + err.Error(), string(out)
 	}
-	return project(r.M, out), string(out)
+	return project(v, r.M, out), string(out)
 }
 
 var errName = map[int]string{24: "BLOCK_NOT_FOUND", 29: "TXN_HASH_NOT_FOUND", 20: "CONTRACT_NOT_FOUND",
